@@ -28,7 +28,7 @@ SPEC = dict(
     assumptions=["'matching' = R1 full match whose calendar parts denote an existing date; order = packaging",
                  "--ignore-vcs-tag is the documented opt-out: only 'tags do not influence the start' is asserted there",
                  "day-of-year 366 in a non-leap year is not generated (the statement does not say whether it matches)"],
-    required=["fake_runs", "real_git_runs", "scope:default", "scope:global", "scope:branch", "ignore_runs",
+    required=["real_git_head_without_commit", "fake_runs", "real_git_runs", "scope:default", "scope:global", "scope:branch", "ignore_runs",
               "impossible_date_tags", "tie_cases", "uniqueness_checked", "no_matching_tag_cases", "cli_tag_scope_overrides", "show_pep440_line_checked", "fetch_failure_cases", "legacy_pattern_runs", "line_separator_in_tag_name", "non_utf8_tag_names", "real_git_column_ui_always", "unicode_blank_at_tag_edge",
               "planned_result_is_a_pep440_equal_tag_elsewhere", "fake_hg_runs", "hg_changesets_with_several_tags"],
     anchors=[("cli", "_parse_version_tags"), ("cli", "get_latest_vcs_version_tag"), ("cli", "_update_cfg_from_vcs"),
@@ -378,6 +378,13 @@ def run_real(ctx, case):
             # a user setting that makes `git tag --list` print several tags per line
             git(d, "config", "column.ui", "always")
             ctx.count("real_git_column_ui_always")
+        env = dict(GIT_ENV, HOME=d)
+        if case["seed"] % 9 == 4:
+            # a repository without any commit: no tag exists, none is reachable - the config value is the start
+            ctx.count("real_git_runs")
+            ctx.count("real_git_head_without_commit")
+            observe(ctx, case, d, env, p, ast, tdy, cur, [], [], scope, cli_scope, ignore, "real-git:no-commit-yet", set())
+            return
         git(d, "add", "-A")
         git(d, "commit", "-q", "-m", "c1")
         commits = {"c1": ["main", "dev"]}
@@ -404,9 +411,13 @@ def run_real(ctx, case):
         head = R.choice(["main", "dev"])
         git(d, "checkout", "-q", head)
         reach = {"main": {"c1", "c2", "c3"}, "dev": {"c1", "c2", "d1"}}[head]
+        if case["seed"] % 9 == 5:
+            # a fresh orphan branch: tags exist, but none is reachable from a HEAD that has no commit yet
+            git(d, "checkout", "-q", "--orphan", "fresh")
+            head, reach = "orphan", set()
+            ctx.count("real_git_head_without_commit")
         tags_all = [t for t, _k in tags]
         tags_merged = [t for t in tags_all if placement[t] in reach]
-        env = dict(GIT_ENV, HOME=d)
         ctx.count("real_git_runs")
         observe(ctx, case, d, env, p, ast, tdy, cur, tags_all, tags_merged, scope, cli_scope, ignore, "real-git:" + head, kinds)
     finally:
